@@ -125,6 +125,31 @@ def indirect_store_cases():
     return cases
 
 
+def const_param_cases():
+    """argument passing to a parameter declared const (and to a const local initialised from a parameter): range-checked like
+    every other store"""
+    cases = []
+    TY = {"tiny": (-128, 127), "short": (-32768, 32767), "int": (-2**31, 2**31 - 1), "unsigned tiny": (0, 255), "unsigned short": (0, 65535), "char": (0, 255)}
+    for ty, (lo, hi) in TY.items():
+        tn = ty.replace(" ", "_")
+        pre = ("long f1(const %s a) {\n    return a;\n}\nlong f2(int pad, const %s a, const int z) {\n    return a + z;\n}\n"
+               "long f3(long w) {\n    const %s c = w;\n    return c;\n}\n" % (ty, ty, ty))
+        if ty == "char":
+            continue            # char arguments are printed as characters; the integer channel is covered by the matrix
+        for v in [hi, hi + 1, lo] + ([lo - 1] if lo < 0 else [-1]):
+            for name, call in [("constparam", "f1(%d)" % v), ("constparam-var", "f1(src)"), ("constparam-mid", "f2(1, %d, 0)" % v), ("constlocal", "f3(%d)" % v)]:
+                prog = pre + "int main() {\n    long src = %d;\n    println(\"start\");\n    println(%s);\n    println(\"END\");\n    return 0;\n}\n" % (v, call)
+                cid = "%s-%s-%d" % (tn, name, v)
+                if lo <= v <= hi:
+                    cases.append({"id": cid, "program": prog, "expect_class": "ok", "expect_stdout": "start\n%d\nEND\n" % v})
+                elif lo == 0 and v < 0:
+                    cases.append({"id": cid, "program": prog, "expect_class": "ok", "expect_stdout": "start\n0\nEND\n"})
+                else:
+                    cases.append({"id": cid, "program": prog, "expect_class": "error", "expect_stdout": "start\n",
+                                  "finding": "const_parameter_not_range_checked" if name.startswith("constparam") else None})
+    return cases
+
+
 def indirect_step_cases():
     """++ / -- / += through an indirection at the boundary of the target's type: one step inside the range is stored, the
     step that leaves it stops the program (an unsigned target at 0 stays 0 under --)"""
@@ -222,6 +247,7 @@ def main(a):
     c.suite("ternary-assignment", tern, nontrivial=lambda r: hash(r.sexp), max_report=4, shrink=False)
     c.raw_suite("indirect-stores", indirect_store_cases(), max_report=8)
     c.raw_suite("indirect-steps", indirect_step_cases(), max_report=8)
+    c.raw_suite("const-parameters", const_param_cases(), max_report=6)
     n = 500 if quick else 50000
     rnd = [gen_core.gen_program(a.seed, 41, k, c.gates, size=25, features={"narrow": True})[0] for k in range(n)]
     c.suite("random-narrow", rnd, nontrivial=lambda r: hash(r.sexp) if r.status == "exit1:range" else None)
